@@ -10,7 +10,7 @@ def run(ctx):
         lq.replay_mode(ctx)
     try:
         lq.standard(ctx, "C43", ("LedgerQuery_C43.cfg", "LedgerQuery_C43t.cfg"), ["Submit:ok", "Restart"], {"views", "bloom", "history"},
-                    tv=({"ntraces": 3, "nsteps": 40}, {"ntraces": 10, "nsteps": 80}), extra=section,
+                    tv=({"ntraces": 2, "nsteps": 40}, {"ntraces": 10, "nsteps": 80}), extra=section,
                     assumptions=["logs are emitted by three deployed EVM contracts (LOG1 per call-data word) with three topics; every block "
                                  "additionally carries the ONG fee-transfer logs of its EVM transactions, which are checked against the stored "
                                  "bloom from the event store records",
